@@ -21,6 +21,12 @@ for pid in sorted(PROPS):
         "level_note": t["level_note"],
         "technique": t["technique"],
     })
+claimed = {c["property_id"] for c in checks}
+na = list(NOT_APPLICABLE)
+for line in open(os.path.join(ROOT, "properties.jsonl")):
+    pid = json.loads(line)["id"]
+    if pid not in claimed and not any(x["property_id"] == pid for x in na):
+        na.append({"property_id": pid, "reason": "check not built yet in this session (work in progress, not a judgement that the technique cannot apply)"})
 man = {
     "version": 1,
     "setup_cmd": "./check build",
@@ -38,8 +44,8 @@ man = {
         "kind_free_text": "Rust harness linked against /repo's crates: hostile/sweeping workloads, every library call run under panic capture and an RNG-draw step limit, results compared online with independent reference models (oracle monitors); python driver shards, watches, merges, writes evidence",
     }],
     "checks": checks,
-    "not_applicable": NOT_APPLICABLE,
+    "not_applicable": na,
     "notes": "Technique family: runtime monitoring. The repository has no unsafe/threads/FFI, so memory sanitizers and race detectors decide nothing here (DESIGN.md section 1); the deciding step of every check is an oracle observing executions of the real code. Exit 2 + INCONCLUSIVE is used when the harness cannot build against the tree or a required class was not observed.",
 }
 json.dump(man, open(os.path.join(ROOT, "MANIFEST.json"), "w"), indent=1)
-print("MANIFEST.json:", len(checks), "checks,", len(NOT_APPLICABLE), "not applicable")
+print("MANIFEST.json:", len(checks), "checks,", len(na), "not applicable")
